@@ -22,7 +22,7 @@ func init() { core.Register(c17{}) }
 func (c17) ID() string    { return "C17" }
 func (c17) Level() string { return "exploration" }
 func (c17) Rule() string {
-	return "seeded configuration values: integers of any magnitude (0, +-1, 2^31, 2^53+1, MaxInt64, MinInt64, random), floats, booleans, strings from a hostile alphabet (number-like 007 / 1.10 / +5 / 1e3, boolean-like TRUE / false, quoted 'x' / \"x\", bracketed [a,b] / {} / map[a:b], empty, with spaces / colons / leading blanks, plain), lists of ints / strings (hostile strings inside), nested string->string and string->int maps, structs with yaml tags; each value is marshalled to a YAML document by the generator, loaded by the real container and bound to reflect.StructOf holders three ways, one start each: prefix:\"k\" (typed expectation from the generator's own tree), value:\"${k}\" and prop:\"k\" (must equal the prefix-bound twin), into every compatible concretely typed target (scalar, pointer to scalar, []int / []int64 / []string, map[string]string / map[string]int, struct, *struct). Literals: value:\"<lit>\" into string / int / bool / float targets must be bound as written (strings byte-identical). non-trivial = hostile string, integer beyond 2^53, or a collection; distinct = (value, target type, path kind); own-copy family (a holder changing its map[string]any / []any bound data must not change what later bindings and Get deliver) and retried family (placeholder / prop / prefix bindings of one key after 0-2 failed attempts and Set changes); mapper family (mapper=json next to default bindings, in one holder and in a later start); in a quarter of the main cases the last key segment is selected by a placeholder (configured, or falling back to its default) in all three forms; explicitPrefix family; viaArgs family (command-line values with '=')"
+	return "seeded configuration values: integers of any magnitude (0, +-1, 2^31, 2^53+1, MaxInt64, MinInt64, random), floats, booleans, strings from a hostile alphabet (number-like 007 / 1.10 / +5 / 1e3, boolean-like TRUE / false, quoted 'x' / \"x\", bracketed [a,b] / {} / map[a:b], empty, with spaces / colons / leading blanks, plain), lists of ints / strings (hostile strings inside), nested string->string and string->int maps, structs with yaml tags; each value is marshalled to a YAML document by the generator, loaded by the real container and bound to reflect.StructOf holders three ways, one start each: prefix:\"k\" (typed expectation from the generator's own tree), value:\"${k}\" and prop:\"k\" (must equal the prefix-bound twin), into every compatible concretely typed target (scalar, pointer to scalar, []int / []int64 / []string, map[string]string / map[string]int, struct, *struct). Literals: value:\"<lit>\" into string / int / bool / float targets must be bound as written (strings byte-identical). non-trivial = hostile string, integer beyond 2^53, or a collection; distinct = (value, target type, path kind); own-copy family (a holder changing its map[string]any / []any bound data must not change what later bindings and Get deliver) and retried family (placeholder / prop / prefix bindings of one key after 0-2 failed attempts and Set changes); mapper family (mapper=json next to default bindings, in one holder and in a later start); in a quarter of the main cases the last key segment is selected by a placeholder (configured, or falling back to its default) in all three forms; explicitPrefix family; viaArgs family (command-line values with '='); memberCase family (struct members whose keys are spelled in another case in map / JSON literals, placeholder defaults and mappings inside configured lists); keys spelled in another case in the tags"
 }
 func (c17) Assumptions() []string {
 	return []string{
@@ -183,7 +183,69 @@ func bindOnce(tag string, ft reflect.Type, doc string) (got any, outcome string,
 	return reflect.ValueOf(h).Elem().Field(0).Interface(), r.Outcome(), core.Short(r.OutcomeDetail(), 300)
 }
 
+// memberCase: struct members are matched with their keys regardless of case - also when the mapping did not
+// pass through the configuration store's key normalisation: a map / JSON literal written in a value tag, the
+// default of a placeholder, mappings inside a configured list.
+func (p c17) memberCase(c *core.Ctx) {
+	host := []string{"h1", "db.internal", "007", "1.10"}[c.Rng.Intn(4)]
+	port := 1 + c.Rng.Intn(9000)
+	st := world.BuildStruct([]world.FieldSpec{
+		{Name: "HostName", Type: reflect.TypeOf(""), Tag: `yaml:"hostName"`},
+		{Name: "Port", Type: reflect.TypeOf(0), Tag: `yaml:"port"`},
+	})
+	mk := func() reflect.Value {
+		v := reflect.New(st).Elem()
+		v.Field(0).SetString(host)
+		v.Field(1).SetInt(int64(port))
+		return v
+	}
+	hk := []string{"hostName", "HostName", "hostname", "HOSTNAME"}[c.Rng.Intn(4)]
+	pk := []string{"port", "Port", "PORT"}[c.Rng.Intn(3)]
+	var ft reflect.Type = st
+	var want any = mk().Interface()
+	doc, tag := "", ""
+	switch form := c.Rng.Intn(5); form {
+	case 0: // map literal in the tag
+		tag = fmt.Sprintf("value:%q", fmt.Sprintf("map[%s:%s %s:%d]", hk, host, pk, port))
+		if sniffable(host) {
+			return // (number-like member values inside a literal are the literal family's business)
+		}
+	case 1: // JSON literal in the tag
+		tag = fmt.Sprintf("value:%q", fmt.Sprintf(`{"%s":"%s","%s":%d}`, hk, host, pk, port))
+	case 2: // default of a placeholder whose key is not configured
+		// (a default cannot contain braces: the map[...] form)
+		tag = fmt.Sprintf("value:%q", fmt.Sprintf(`${no.such.section:map[%s:%s %s:%d]}`, hk, host, pk, port))
+		if sniffable(host) {
+			return
+		}
+	default: // mappings inside a configured list (form 3: bound by prefix, form 4: through a placeholder)
+		doc = fmt.Sprintf("servers:\n  - %s: \"%s\"\n    %s: %d\n  - %s: \"%s\"\n    %s: %d\n", hk, host, pk, port, hk, host, pk, port)
+		ft = reflect.SliceOf(st)
+		sl := reflect.MakeSlice(ft, 0, 2)
+		sl = reflect.Append(sl, mk(), mk())
+		want = sl.Interface()
+		tag = []string{`prefix:"servers"`, `value:"${servers}"`}[form-3]
+	}
+	got, out, det := bindOnce(tag, ft, doc)
+	c.Count("starts", 1)
+	detail := map[string]any{"tag": tag, "document": doc, "target": ft.String(), "outcome": det}
+	if abnormal(out) {
+		c.Fail("", fmt.Sprintf("%s into %s: %s", tag, ft, det), detail)
+		return
+	}
+	if out != "ok" || !reflect.DeepEqual(got, want) {
+		c.Fail("", fmt.Sprintf("%s (document %q) into %s gives %s (%s), expected %s: members are matched with their keys regardless of case", tag, doc, ft, renderVal(got), out, renderVal(want)), detail)
+		return
+	}
+	c.Count("member_case_bindings_checked", 1)
+	c.Nontrivial("membercase|" + tag + "|" + doc)
+}
+
 func (p c17) Run(c *core.Ctx) {
+	if c.Index%20 == 6 {
+		p.memberCase(c)
+		return
+	}
 	if c.Index%5 == 4 {
 		p.literal(c)
 		return
@@ -245,6 +307,11 @@ func (p c17) Run(c *core.Ctx) {
 			c.Count("cases_with_a_key_segment_selected_by_a_default", 1)
 		}
 		c.Count("cases_with_a_selected_key_segment", 1)
+	} else if c.Rng.Intn(4) == 0 {
+		// the tags spell the key with capitals (keys are matched regardless of case): still the same key
+		sp := []string{"Cfg.K", "CFG.k", "cfg.K"}[c.Rng.Intn(3)]
+		pfxTag, valTag, propTag = fmt.Sprintf(`prefix:"%s"`, sp), fmt.Sprintf(`value:"${%s}"`, sp), fmt.Sprintf(`prop:"%s"`, sp)
+		c.Count("cases_with_the_key_spelled_in_another_case", 1)
 	}
 	gotP, outP, detP := bindOnce(pfxTag, ft, doc)
 	c.Count("starts", 1)
